@@ -136,6 +136,21 @@ def nested_inherent_bases(rng):
         c.probes = ['Wr<X0>']
         c.one_family = True
         out.append(c)
+    # a chain of three levels, the innermost header written BEFORE the intermediate one
+    for inner_first in (True, False):
+        c = c17.ICase()
+        mk = lambda: gp.mk_slots(rng, ['T0'])
+        b0 = gp.Block(mk(), None, 'Wr<{T0}>', [('{T0}', 'D', {'G': 'GA'}, rng.choice(['inline', 'where']))], 'b0')
+        b1 = gp.Block(mk(), None, 'Wr<Vec<{T0}>>', [('Vec<{T0}>', 'D', {'G': 'GB'}, 'where')], 'b1')
+        b2 = gp.Block(mk(), None, 'Wr<Vec<Vec<{T0}>>>', [('Vec<Vec<{T0}>>', 'D', {'G': 'GC'}, 'where')], 'b2')
+        c.blocks = [b0, b2, b1] if inner_first else [b0, b1, b2]
+        for i, b in enumerate(c.blocks):
+            b.tag = 'b%d' % i
+        c.decl = 'pub struct Wr<T>(pub core::marker::PhantomData<T>);'
+        c.world = {('X0', 'D'): {'G': 'GA'}, ('Vec<X0>', 'D'): {'G': 'GB'}, ('Vec<Vec<X0>>', 'D'): {'G': 'GC'}}
+        c.probes = ['Wr<X0>']
+        c.one_family = True
+        out.append(c)
     return out
 
 
